@@ -367,3 +367,20 @@ def rule_k7(ctx, F):
                       expected="set_en_passant(file) control-dependent on a board read next to the pushed pawn "
                                "compared with PieceType::Pawn", found=why)
     ctx.floor("C04.K7", "non-sentinel set_en_passant sites", n_sites, 2)
+    # the importer decides once: no later reset of the file it recorded, exactly one state key folded in
+    nw = F.fn("chess::Game::new")
+    nsym = hir.Sym(hir.Env(nw["hir"], F), F)
+    resets = [c for c, _ in hir.calls(nw["hir"]["body"], "GameState::set_en_passant") if hir.sym_int(nsym(c["args"][0])) == 8]
+    ctx.check("C04.K7", "importer-does-not-revise-the-recorded-file", not resets, fn=nw["path"], file=nw["file"],
+              line=hir.line(resets[0]) if resets else None,
+              what="the importer drops an en-passant file under a condition Game::push does not apply (e.g. 'no legal capture'): the same "
+                   "position then hashes differently depending on whether it was played or loaded",
+              expected="the only condition is the one shared with push (an enemy pawn beside the pushed pawn)", found=len(resets))
+    keys = 0
+    for n, anc in hir.walk(nw["hir"]["body"]):
+        if n.get("k") == "AssignOp" and n["op"] == "^=":
+            r = nsym(n["r"])
+            if r[0] == "call" and r[1] == "chess::gamestate::GameState::hash":
+                keys += 1
+    ctx.check("C04.K7", "importer-folds-one-state-key", keys == 1, fn=nw["path"], file=nw["file"],
+              what="the importer must fold exactly one state key into the hash", expected=1, found=keys)
